@@ -205,63 +205,8 @@ func checkC10(c *Ctx) {
 	}
 	c.Expect("R1", 8)
 
-	// ---------------- R2
 	readSlice := p.Func(redisPkg, "(*Reader).ReadSlice")
-	if readSlice == nil {
-		c.Unresolved("R2", "(*Reader).ReadSlice")
-	} else {
-		n := 0
-		for _, fn := range p.FuncsIn(redisPkg) {
-			if p.isTestFn(fn) {
-				continue
-			}
-			eachInstr(fn, func(_ *ssa.BasicBlock, _ int, in ssa.Instruction) {
-				call, ok := in.(*ssa.Call)
-				if !ok || !isCallToFn(call, readSlice) {
-					return
-				}
-				n++
-				site := fmt.Sprintf("%s use#%d of ReadSlice", fnKey(fn), n)
-				var alias ssa.Value
-				for _, r := range *call.Referrers() {
-					if ex, ok := r.(*ssa.Extract); ok && ex.Index == 0 {
-						alias = ex
-					}
-				}
-				if alias == nil {
-					c.OK("R2", site, call.Pos(), "result unused")
-					return
-				}
-				why, at := p.aliasEscape(alias, 3, map[ssa.Value]bool{})
-				if why != "" {
-					pos := call.Pos()
-					if at != nil && at.Pos().IsValid() {
-						pos = at.Pos()
-					}
-					c.Fail("R2", site, pos, "a slice that aliases the reader's internal buffer "+why+": the next refill of the buffer - which happens or not depending on how the peer's bytes were chunked - overwrites the decoded value while it is still queued")
-				} else {
-					c.OK("R2", site, call.Pos(), "alias used only for byte tests, len, parsing and as a copy source")
-				}
-			})
-		}
-		// ReadSlice itself returns sub-slices of b.buf: its callers are the only holders (checked above)
-		c.Check(n >= 2, "R2", "ReadSlice users found", readSlice.Pos(), fmt.Sprintf("%d call sites", n), "no call site of ReadSlice found")
-	}
-	// value-carrying decoders must return owned memory: results derive from ReadBytes/ReadFull (allocating), never from ReadSlice
-	for _, name := range []string{"(*decoder).decodeTextBytes", "(*decoder).decodeBulkString", "(*decoder).decodeInline"} {
-		fn := p.Func(redisPkg, name)
-		if fn == nil {
-			c.Unresolved("R2", name)
-			continue
-		}
-		usesRS := false
-		eachInstr(fn, func(_ *ssa.BasicBlock, _ int, in ssa.Instruction) {
-			if isCallToFn(in, readSlice) {
-				usesRS = true
-			}
-		})
-		c.Check(!usesRS, "R2", name+" reads into owned memory", fn.Pos(), "uses the allocating readers (ReadBytes/ReadFull)", "a value-carrying decoder reads with ReadSlice (no copy)")
-	}
+	checkReadBufferAlias(c, "R2")
 	c.Expect("R2", 5)
 
 	// ---------------- R3 / R4 / R5 decoder side
@@ -514,4 +459,66 @@ func checkC10(c *Ctx) {
 		})
 		c.Check(okFull, "R6", "buffer-full only when buffered()==len(buf), returning the whole buffer", readSlice.Pos(), "condition and result agree", "the buffer-full branch is taken while the unterminated line does not yet fill the buffer (a length/integer line that merely ends at the buffer end makes a valid stream fail, depending on chunking), or hands out a partial buffer")
 	}
+}
+
+// checkReadBufferAlias: a slice aliasing the reader's internal buffer never escapes into a decoded value.
+func checkReadBufferAlias(c *Ctx, rule string) {
+	p := c.P
+	readSlice := p.Func(redisPkg, "(*Reader).ReadSlice")
+	if readSlice == nil {
+		c.Unresolved(rule, "(*Reader).ReadSlice")
+	} else {
+		n := 0
+		for _, fn := range p.FuncsIn(redisPkg) {
+			if p.isTestFn(fn) {
+				continue
+			}
+			eachInstr(fn, func(_ *ssa.BasicBlock, _ int, in ssa.Instruction) {
+				call, ok := in.(*ssa.Call)
+				if !ok || !isCallToFn(call, readSlice) {
+					return
+				}
+				n++
+				site := fmt.Sprintf("%s use#%d of ReadSlice", fnKey(fn), n)
+				var alias ssa.Value
+				for _, r := range *call.Referrers() {
+					if ex, ok := r.(*ssa.Extract); ok && ex.Index == 0 {
+						alias = ex
+					}
+				}
+				if alias == nil {
+					c.OK(rule, site, call.Pos(), "result unused")
+					return
+				}
+				why, at := p.aliasEscape(alias, 3, map[ssa.Value]bool{})
+				if why != "" {
+					pos := call.Pos()
+					if at != nil && at.Pos().IsValid() {
+						pos = at.Pos()
+					}
+					c.Fail(rule, site, pos, "a slice that aliases the reader's internal buffer "+why+": the next refill of the buffer - which happens or not depending on how the peer's bytes were chunked - overwrites the decoded value while it is still queued")
+				} else {
+					c.OK(rule, site, call.Pos(), "alias used only for byte tests, len, parsing and as a copy source")
+				}
+			})
+		}
+		// ReadSlice itself returns sub-slices of b.buf: its callers are the only holders (checked above)
+		c.Check(n >= 2, rule, "ReadSlice users found", readSlice.Pos(), fmt.Sprintf("%d call sites", n), "no call site of ReadSlice found")
+	}
+	// value-carrying decoders must return owned memory: results derive from ReadBytes/ReadFull (allocating), never from ReadSlice
+	for _, name := range []string{"(*decoder).decodeTextBytes", "(*decoder).decodeBulkString", "(*decoder).decodeInline"} {
+		fn := p.Func(redisPkg, name)
+		if fn == nil {
+			c.Unresolved(rule, name)
+			continue
+		}
+		usesRS := false
+		eachInstr(fn, func(_ *ssa.BasicBlock, _ int, in ssa.Instruction) {
+			if isCallToFn(in, readSlice) {
+				usesRS = true
+			}
+		})
+		c.Check(!usesRS, rule, name+" reads into owned memory", fn.Pos(), "uses the allocating readers (ReadBytes/ReadFull)", "a value-carrying decoder reads with ReadSlice (no copy)")
+	}
+
 }
